@@ -80,9 +80,16 @@ def _budget_for_as_while(fi, loop: ast.For) -> ast.While:
     from ..model import keep
     it = loop.iter
     ok = (isinstance(loop.target, ast.Name) and isinstance(it, ast.Call) and isinstance(it.func, ast.Name) and it.func.id == "range"
-          and len(it.args) == 1 and not it.keywords and isinstance(it.args[0], ast.Name) and not loop.orelse and loop.body)
+          and len(it.args) == 1 and not it.keywords and not loop.orelse and loop.body)
+    barg = it.args[0] if ok else None
+    if ok and isinstance(barg, ast.Call) and isinstance(barg.func, ast.Name) and barg.func.id == "max" and len(barg.args) == 2 and not barg.keywords:
+        # range(max(B, 0)) is range(B): a negative budget runs no iteration either way
+        others = [a_ for a_ in barg.args if not (isinstance(a_, ast.Constant) and a_.value == 0)]
+        if len(others) == 1:
+            barg = others[0]
+    ok = ok and isinstance(barg, ast.Name)
     if ok:
-        B = it.args[0].id
+        B = barg.id
         params = fi.signature.positional + fi.signature.kwonly
         uses_var = any(isinstance(n, ast.Name) and n.id == loop.target.id and isinstance(n.ctx, ast.Load) for st in loop.body for n in ast.walk(st))
         assigned = any(isinstance(n, ast.Name) and n.id == B and isinstance(n.ctx, ast.Store) for n in ast.walk(fi.node))
